@@ -308,11 +308,11 @@ func SwarmCfg(t *sim.Tape, profile string, allowed map[string]bool) *GenCfg {
 }
 
 type Gen struct {
-	T    *sim.Tape
-	SI   *world.SchemaInfo
-	Cfg  *GenCfg
-	Uni  []Slot
-	txN  int
+	T   *sim.Tape
+	SI  *world.SchemaInfo
+	Cfg *GenCfg
+	Uni []Slot
+	txN int
 }
 
 func NewGen(t *sim.Tape, si *world.SchemaInfo, cfg *GenCfg) *Gen {
